@@ -23,6 +23,17 @@ Definition pick_fields (o : list (string * json)) (fields : typefields) : list s
   | None => match fields with e :: _ => snd e | [] => [] end
   end.
 
+(* cleanList, for one entry of a list: objects are cleaned by co, lists of lists entry by entry (an empty list keeps
+   its parent), anything else is left alone and does not keep the parent *)
+Fixpoint clean_elem (co : list (string * json) -> list (string * json) * bool) (x : json) {struct x} : json * bool :=
+  match x with
+  | JObj m => let '(m', rm) := co m in (JObj m', rm)
+  | JArr l =>
+      let c := map (clean_elem co) l in
+      (JArr (map fst c), forallb snd c && negb (is_empty l))
+  | other => (other, true)
+  end.
+
 (* clean(payload, path, fields): the cleaned object and whether it became empty (so that the parent drops it) *)
 Fixpoint clean (path : list string) (fields : typefields) (o : list (string * json)) : list (string * json) * bool :=
   match path with
@@ -36,9 +47,7 @@ Fixpoint clean (path : list string) (fields : typefields) (o : list (string * js
           let o2 := if rm then remove_key p o1 else o1 in
           (o2, is_empty o2)
       | Some (JArr l) =>
-          let cleaned := map (fun x => match x with
-                                       | JObj m => let '(m', rm) := clean rest fields m in (JObj m', rm)
-                                       | other => (other, true) end) l in
+          let cleaned := map (clean_elem (clean rest fields)) l in
           let l' := map fst cleaned in
           let rm := forallb snd cleaned && negb (is_empty l) in
           let o1 := assoc_set p (JArr l') o in
